@@ -465,6 +465,11 @@ class Adapter:
         else:
             iv = e["dt"] * self.unit()
             du, ds = e["du"], e["ds"]
+            if self.nstep % 2:
+                # the sleep returns late (a loaded machine): a quarter of the elapsed time was never asked
+                # for -- the share is taken over the time that really went by
+                self.w.oversleep = iv / 4
+                iv = iv * 3 / 4
 
             def burn():
                 self.ptk = [self.ptk[0] + du, self.ptk[1] + ds]
